@@ -374,15 +374,15 @@ func (b *countBatch) Fail(err error) {
 	}
 }
 
-// doShutdownStress lets a handful of goroutines call Add while Close is called, without forcing the interleaving.
-// A call completed twice contradicts c20_each_call_completes_at_most_once_with_close: verdict. A call that is never
-// completed (its Add passed the closed check, Run drained and returned, then the call was enqueued) is the overlap the
-// model refutes (c20_add_overlapping_close_never_completes_refuted); it cannot be forced or excluded from outside, so
-// it is only counted here (bounded wait), as an observation for the coordinator.
-func doShutdownStress(o *hx.Out, iters int) {
-	const adders = 8
+// doShutdownStress lets goroutines call Add while Close is called, without forcing the interleaving (the window
+// between Add's closed-check and its send cannot be held open from outside: Add calls nothing in between).
+// Every call must complete exactly once (c20_each_call_completes_exactly_once_with_close): once every Add has returned
+// and the Run goroutine is gone nothing can complete a call any more, so a count of 0 then is definitive
+// (batch:call-never-completed), whatever the load of the machine; a count of 2 is batch:call-completed-twice.
+func doShutdownStress(o *hx.Out, iters int, adders int) {
 	lost, twice := 0, 0
-	for it := 0; it < iters; it++ {
+	var firstLost string
+	for it := 0; it < iters && lost < 3; it++ {
 		bf := commonbatch.BatcherFactory{Linger: 0, MaxRequestsPerBatch: 10}
 		b := bf.NewBatcher(context.Background(), 1, "verif", func() commonbatch.Batch { return &countBatch{} })
 		cnt := make([]atomic.Int32, adders)
@@ -405,7 +405,6 @@ func doShutdownStress(o *hx.Out, iters int) {
 		}
 		_ = b.Close()
 		wg.Wait()
-		time.Sleep(200 * time.Microsecond)
 		zero := func() int {
 			z := 0
 			for i := range cnt {
@@ -415,10 +414,18 @@ func doShutdownStress(o *hx.Out, iters int) {
 			}
 			return z
 		}
-		if zero() > 0 {
-			waitUntil(150*time.Millisecond, func() bool { return zero() == 0 })
-			if zero() > 0 {
+		if zero() > 0 && !waitUntil(2*time.Millisecond, func() bool { return zero() == 0 }) {
+			// not yet completed: decide once Run has returned
+			if !waitUntil(30*time.Second, func() bool { return zero() == 0 || goroutinesIn("batcherImpl).Run") == 0 }) {
+				o.Count("shutdown:stress:run-goroutine-still-alive-after-30s")
+				continue
+			}
+			if z := zero(); z > 0 {
 				lost++
+				if firstLost == "" {
+					firstLost = fmt.Sprintf("iteration %d: %d of %d calls handed to Add while Close was called have no completion although every Add has returned and Run is gone",
+						it, z, adders)
+				}
 			}
 		}
 		for i := range cnt {
@@ -427,9 +434,11 @@ func doShutdownStress(o *hx.Out, iters int) {
 			}
 		}
 	}
-	o.CountN("shutdown:stress:iterations(8 Adds racing one Close)", iters)
-	o.CountN("shutdown:stress:observation:iterations-with-a-call-never-completed", lost)
+	o.CountN(fmt.Sprintf("shutdown:stress:iterations(%d Adds racing one Close)", adders), iters)
+	if lost > 0 {
+		o.Violation("batch:call-never-completed", firstLost)
+	}
 	if twice > 0 {
-		o.Violation("batch:call-completed-twice", fmt.Sprintf("%d calls completed twice in %d iterations of 8 concurrent Adds racing Close (unforced)", twice, iters))
+		o.Violation("batch:call-completed-twice", fmt.Sprintf("%d calls completed twice in %d iterations of %d concurrent Adds racing Close (unforced)", twice, iters, adders))
 	}
 }
